@@ -768,25 +768,37 @@ func isExit(in ssa.Instruction) bool {
 // reaches an instruction satisfying goal, without crossing blocked instructions/edges?
 // The goal test is applied before the block test. Returns a witness instruction.
 func CanReach(f *ssa.Function, from ssa.Instruction, goal func(ssa.Instruction) bool, q PathQ) (ssa.Instruction, bool) {
+	return canReachFrom(f, from, nil, -1, goal, q)
+}
+
+// canReachFrom is CanReach; with viaBlock/viaPred set, the search starts at the first instruction of viaBlock as entered
+// through its predecessor number viaPred (what the phis of that block are is then known to the path).
+func canReachFrom(f *ssa.Function, from ssa.Instruction, viaBlock *ssa.BasicBlock, viaPred int, goal func(ssa.Instruction) bool, q PathQ) (ssa.Instruction, bool) {
 	if f == nil || len(f.Blocks) == 0 {
 		return nil, false
 	}
 	type start struct {
 		b     *ssa.BasicBlock
 		i     int
-		facts uint32
+		facts pathFacts
 	}
 	type vkey struct {
 		b     *ssa.BasicBlock
-		facts uint32
+		facts pathFacts
 	}
 	ci := corrOf(f)
-	track := len(ci.classes) > 0 && os.Getenv("MQTTCHECK_NO_CORR") == ""
+	track := (len(ci.classes) > 0 || len(ci.tphis) > 0) && os.Getenv("MQTTCHECK_NO_CORR") == ""
 	var st start
-	if from == nil {
-		st = start{f.Blocks[0], 0, 0}
-	} else {
-		st = start{from.Block(), instrIndex(from) + 1, 0}
+	switch {
+	case viaBlock != nil:
+		st = start{b: viaBlock}
+		for _, j := range ci.tphiBlocks[viaBlock] {
+			st.facts.sel[j] = int8(viaPred + 1)
+		}
+	case from == nil:
+		st = start{b: f.Blocks[0]}
+	default:
+		st = start{b: from.Block(), i: instrIndex(from) + 1}
 	}
 	visited := map[vkey]bool{}
 	var work []start
@@ -805,9 +817,9 @@ func CanReach(f *ssa.Function, from ssa.Instruction, goal func(ssa.Instruction) 
 				blocked = true
 				break
 			}
-			if track && facts != 0 {
+			if track && facts.bits != 0 {
 				if m, ok := ci.kills[in]; ok {
-					facts = corrClear(facts, m)
+					facts.bits = corrClear(facts.bits, m)
 				}
 			}
 		}
@@ -815,8 +827,14 @@ func CanReach(f *ssa.Function, from ssa.Instruction, goal func(ssa.Instruction) 
 			continue
 		}
 		mem, isMem := corrMember{}, false
+		var decided, decidedVal bool
 		if track {
 			mem, isMem = ci.members[w.b]
+			if len(ci.tphis) > 0 {
+				if iff := blockIf(w.b); iff != nil {
+					decidedVal, decided = ci.evalCond(iff.Cond, &facts, 0)
+				}
+			}
 		}
 		for k, s := range w.b.Succs {
 			if edgeInfeasible(w.b, k) {
@@ -825,10 +843,13 @@ func CanReach(f *ssa.Function, from ssa.Instruction, goal func(ssa.Instruction) 
 			if q.BlockEdge != nil && q.BlockEdge(w.b, k) {
 				continue
 			}
+			if decided && len(w.b.Succs) == 2 && (k == 0) != decidedVal {
+				continue // the constants that reached this test along the path exclude this edge
+			}
 			nf := facts
 			if isMem && len(w.b.Succs) == 2 {
 				val := (k == 0) == mem.pol // truth of the class condition on this edge
-				switch corrGet(facts, mem.class) {
+				switch corrGet(facts.bits, mem.class) {
 				case 1:
 					if val {
 						continue // contradicts what an earlier test on this path established
@@ -838,11 +859,29 @@ func CanReach(f *ssa.Function, from ssa.Instruction, goal func(ssa.Instruction) 
 						continue
 					}
 				}
-				nf = corrSet(facts, mem.class, val)
+				nf.bits = corrSet(facts.bits, mem.class, val)
+			}
+			if track {
+				if idxs := ci.tphiBlocks[s]; len(idxs) > 0 {
+					// which incoming edge of s this is (ambiguous when the block is a predecessor twice)
+					pi, np := -1, 0
+					for i, p := range s.Preds {
+						if p == w.b {
+							pi = i
+							np++
+						}
+					}
+					for _, j := range idxs {
+						nf.sel[j] = 0
+						if np == 1 {
+							nf.sel[j] = int8(pi + 1)
+						}
+					}
+				}
 			}
 			if !visited[vkey{s, nf}] {
 				visited[vkey{s, nf}] = true
-				work = append(work, start{s, 0, nf})
+				work = append(work, start{b: s, facts: nf})
 			}
 		}
 	}
@@ -1115,4 +1154,36 @@ func (c *Ctx) fieldImmutable(named *types.Named, k int) bool {
 	}
 	k2 := fmt.Sprintf("%s#%d", named.String(), k)
 	return !c.immutMutable[k2]
+}
+
+// ResolveAt resolves v like Resolve; a phi whose incoming values differ is narrowed to the incoming edges from which `at`
+// can still be reached before the phi's block is entered again (a result variable assigned in one select case and read
+// after the other cases have returned).
+func (c *Ctx) ResolveAt(v ssa.Value, at ssa.Instruction) ssa.Value {
+	r := c.Resolve(v)
+	phi, ok := r.(*ssa.Phi)
+	if !ok || at == nil || phi.Parent() != at.Parent() {
+		return r
+	}
+	blk := phi.Block()
+	var first ssa.Value
+	for i, e := range phi.Edges {
+		if i >= len(blk.Preds) {
+			return r
+		}
+		noReentry := PathQ{BlockEdge: func(b *ssa.BasicBlock, k int) bool { return b.Succs[k] == blk }}
+		if _, reach := canReachFrom(phi.Parent(), nil, blk, i, func(in ssa.Instruction) bool { return in == at }, noReentry); !reach {
+			continue
+		}
+		re := c.ResolveAt(e, at)
+		if first == nil {
+			first = re
+		} else if re != first {
+			return r
+		}
+	}
+	if first == nil {
+		return r
+	}
+	return first
 }
